@@ -46,7 +46,8 @@ pub enum Sc {
         pivot: Option<(f64, bool)>,
         /// 0: start on the convex hull, end on repeat; 1: start on a given hull vertex (the
         /// library looks for a free direction itself), end on repeat; 2: start on a given hull
-        /// vertex, end on another given vertex
+        /// vertex, end on another given vertex; 3: start on the given index with the ball placed
+        /// along an axis (the third number picks +y, -y, +x, -x), end on repeat
         #[serde(default)]
         pivot_mode: (u8, usize, usize),
     },
@@ -318,7 +319,11 @@ fn gen_points(rng: &mut Rng, tier: Tier) -> Sc {
     let k = 1 + rng.below(kmax);
     // a proper subset, or sometimes every index once (in any order: still "index-remapped")
     let mut subset: Vec<usize> = if rng.chance(0.15) { (0..n).collect() } else { (0..n).filter(|_| rng.chance(0.5)).collect() };
-    if subset.is_empty() {
+    // "all index subsets" includes the empty one: a tree over no points answers every radius and
+    // k-nearest query with nothing (nearest_one has no answer to give and is not asked)
+    if rng.chance(0.02) {
+        subset.clear();
+    } else if subset.is_empty() {
         subset.push(rng.below(n));
     }
     rng.shuffle(&mut subset);
@@ -450,6 +455,11 @@ fn gen_hull(rng: &mut Rng, tier: Tier) -> Sc {
         }
         let mode = if rng.chance(0.75) { 2u8 } else { 1 };
         return Sc::Hull { label: label.into(), pts, polygon: false, pivot: Some((radius, rng.chance(0.5))), pivot_mode: (mode, a, b) };
+    }
+    if rng.chance(0.04) {
+        if let Some(sc) = gen_exact_half_turn(rng) {
+            return sc;
+        }
     }
     if rng.chance(if tier == Tier::Quick { 0.004 } else { 0.002 }) {
         // a very large cloud whose size is a whisker over a multiple of a power of two, with an
@@ -724,12 +734,105 @@ fn check_kd(
     }
 }
 
+const AXES: [[f64; 2]; 4] = [[0.0, 1.0], [0.0, -1.0], [1.0, 0.0], [-1.0, 0.0]];
+
 fn pivot_start_end(mode: (u8, usize, usize)) -> (hull::BallPivotStart, hull::BallPivotEnd) {
     match mode.0 {
+        3 => {
+            let d = AXES[mode.2 % 4];
+            (hull::BallPivotStart::StartOnIndexDir(mode.1, engeom::Vector2::new(d[0], d[1])), hull::BallPivotEnd::EndOnRepeat)
+        }
         1 => (hull::BallPivotStart::StartOnIndex(mode.1), hull::BallPivotEnd::EndOnRepeat),
         2 => (hull::BallPivotStart::StartOnIndex(mode.1), hull::BallPivotEnd::EndOnIndex(mode.2)),
         _ => (hull::BallPivotStart::StartOnConvex, hull::BallPivotEnd::EndOnRepeat),
     }
+}
+
+/// Exactly representable pivot geometry: half-integer coordinates, a radius with Pythagorean
+/// offsets, the ball placed along an axis, and the first contact exactly half a turn away (the
+/// vectors involved are exactly anti-parallel). A third point is met between that contact and the
+/// moment the ball would let go of the second point again.
+fn gen_exact_half_turn(rng: &mut Rng) -> Option<Sc> {
+    use std::f64::consts::{PI, TAU};
+    let (r, offs): (f64, &[[f64; 2]]) = match rng.below(4) {
+        0 => (12.5, &[[12.0, 3.5], [3.5, 12.0], [10.0, 7.5], [7.5, 10.0]]),
+        1 => (2.5, &[[2.0, 1.5], [1.5, 2.0]]),
+        2 => (6.5, &[[6.0, 2.5], [2.5, 6.0]]),
+        _ => (8.5, &[[7.5, 4.0], [4.0, 7.5]]),
+    };
+    let scale = (2.0f64).powi(rng.range(-3, 3) as i32);
+    let axis = rng.below(4);
+    let d = AXES[axis];
+    let ccw = rng.chance(0.5);
+    let t = if rng.chance(0.5) { [0.0, 0.0] } else { [rng.range(-8, 8) as f64, rng.range(-8, 8) as f64] };
+    let p0 = [0.0, 0.0];
+    let c0 = [r * d[0], r * d[1]];
+    let c1 = [-r * d[0], -r * d[1]];
+    let o = *rng.pick(offs);
+    let sg = [if rng.chance(0.5) { 1.0 } else { -1.0 }, if rng.chance(0.5) { 1.0 } else { -1.0 }];
+    let q1 = [c1[0] + sg[0] * o[0], c1[1] + sg[1] * o[1]];
+    let norm = |a: [f64; 2]| (a[0] * a[0] + a[1] * a[1]).sqrt();
+    let sub = |a: [f64; 2], b: [f64; 2]| [a[0] - b[0], a[1] - b[1]];
+    if norm(q1) >= 2.0 * r * 0.98 || norm(q1) < 0.2 * r || norm(sub(q1, c0)) <= r * 1.02 {
+        return None;
+    }
+    // angles (from the starting position, in the pivot direction) at which the ball rotating
+    // about p0 touches a point
+    let contact_angles = |q: [f64; 2]| -> Option<[f64; 2]> {
+        let dd = norm(q);
+        if dd == 0.0 || dd >= 2.0 * r {
+            return None;
+        }
+        let mid = [q[0] / 2.0, q[1] / 2.0];
+        let h = (r * r - dd * dd / 4.0).sqrt();
+        let perp = [-q[1] / dd, q[0] / dd];
+        let mut out = [0.0; 2];
+        for (k, sgn) in [1.0, -1.0].iter().enumerate() {
+            let x = [mid[0] + sgn * h * perp[0], mid[1] + sgn * h * perp[1]];
+            let mut a = (c0[0] * x[1] - c0[1] * x[0]).atan2(c0[0] * x[0] + c0[1] * x[1]);
+            if !ccw {
+                a = -a;
+            }
+            if a < 0.0 {
+                a += TAU;
+            }
+            out[k] = a;
+        }
+        Some(out)
+    };
+    let a1 = contact_angles(q1)?;
+    let (first, second) = (a1[0].min(a1[1]), a1[0].max(a1[1]));
+    if (first - PI).abs() > 1e-9 || second - first < 0.3 {
+        return None;
+    }
+    // the third point: first met strictly between the two contacts of the second
+    let mut q2 = None;
+    for _ in 0..60 {
+        let c = [(rng.range(-50, 50) as f64) * 0.5, (rng.range(-50, 50) as f64) * 0.5];
+        if norm(sub(c, c0)) <= r * 1.02 || norm(sub(c, c1)) <= r * 1.02 || norm(sub(c, q1)) < 0.1 * r {
+            continue;
+        }
+        // three points in a line have no hull to speak of
+        if (q1[0] * c[1] - q1[1] * c[0]).abs() < 0.05 * r * r {
+            continue;
+        }
+        if let Some(a2) = contact_angles(c) {
+            let f2 = a2[0].min(a2[1]);
+            if f2 > first + 0.1 && f2 < second - 0.1 {
+                q2 = Some(c);
+                break;
+            }
+        }
+    }
+    let q2 = q2?;
+    let place = |p: [f64; 2]| [(p[0] + t[0]) * scale, (p[1] + t[1]) * scale];
+    let mut pts = vec![place(p0), place(q1), place(q2)];
+    let mut start = 0;
+    if rng.chance(0.5) {
+        pts.swap(0, 2);
+        start = 2;
+    }
+    Some(Sc::Hull { label: "exact-half-turn".into(), pts, polygon: false, pivot: Some((r * scale, ccw)), pivot_mode: (3, start, axis) })
 }
 
 enum RefPivot {
@@ -866,7 +969,7 @@ fn observe_points<const D: usize>(sim: &Sim, pts: &[[f64; 3]], order: &[usize], 
     };
     let (p_nearest_one, p_nearest_k, p_within) = match &partial {
         OpResult::Done(t) => (
-            sim.op("PartialKdTree::nearest_one", b, || qs.iter().map(|q| t.nearest_one(q)).collect()),
+            if subset.is_empty() { OpResult::Done(Vec::new()) } else { sim.op("PartialKdTree::nearest_one", b, || qs.iter().map(|q| t.nearest_one(q)).collect()) },
             sim.op("PartialKdTree::nearest", b, || qs.iter().map(|q| t.nearest(q, kk)).collect()),
             sim.op("PartialKdTree::within", b, || qs.iter().map(|q| t.within(q, radius)).collect()),
         ),
@@ -1451,7 +1554,7 @@ impl Property for C15 {
                 }
             }
             Sc::Hull { label, pts, polygon, pivot, pivot_mode } => {
-                if pivot_mode.0 != 0 {
+                if pivot_mode.0 != 0 && pivot_mode.0 != 3 {
                     // remove single points other than the designated ones, remapping the indices
                     for drop in (0..pts.len()).rev().take(60) {
                         if drop == pivot_mode.1 || drop == pivot_mode.2 || pts.len() <= 4 {
@@ -1491,10 +1594,11 @@ impl Property for C15 {
             Sc::PoissonMesh { mesh, radius, .. } => !mesh.f.is_empty() && (0..mesh.f.len()).all(|i| proper(mesh, i)) && *radius > 0.0,
             Sc::Dense { mesh, spacing, .. } => !mesh.f.is_empty() && (0..mesh.f.len()).all(|i| proper(mesh, i)) && *spacing > 0.0,
             Sc::Points { pts, order, subset, queries, k, .. } => {
-                !pts.is_empty() && !order.is_empty() && !subset.is_empty() && !queries.is_empty() && *k >= 1
+                !pts.is_empty() && !order.is_empty() && !queries.is_empty() && *k >= 1
                     && order.iter().all(|&i| i < pts.len())
                     && subset.iter().all(|&i| i < pts.len())
             }
+            Sc::Hull { pts, pivot_mode, .. } if pivot_mode.0 == 3 => pts.len() >= 3 && pivot_mode.1 < pts.len(),
             Sc::Hull { pts, pivot_mode, .. } => pts.len() >= 4 && pivot_mode.1 < pts.len() && pivot_mode.2 < pts.len(),
         }
     }
